@@ -493,6 +493,8 @@ def main(tier, replay=None):
         chk.violation('build', 'working tree does not build: ' + str(e)[:500], {'error': str(e)}, no_input=True)
         return chk.finish()
     hooked = hook_present(snap)
+    phase = {'build_s': round(time.time() - chk.t0, 1)}
+    t1 = time.time()
 
     ob = check_obligations('C13')
     proof_coverage(chk, ob, 'make -f Makefile.coq -k Props/Properties_C13.vo (coqc 8.16.1, full .vo) + Print Assumptions',
@@ -510,6 +512,8 @@ def main(tier, replay=None):
         model = None
         ob['failed'].append({'where': 'extraction', 'error': str(e)[-600:]})
 
+    phase['coq_and_extraction_s'] = round(time.time() - t1, 1)
+    t1 = time.time()
     base = mkscratch('c13.')
     shim = os.path.join(base, 'timeshim.so')
     open(os.path.join(base, 'timeshim.c'), 'w').write(SHIM_C)
@@ -522,7 +526,7 @@ def main(tier, replay=None):
     broken = bool(ob['failed'])
     if tier == 'quick':
         shapes = [(2, 1), (3, 2), (4, 3)]
-        seeds = list(range(1, 13)) if not broken else list(range(1, 31))
+        seeds = list(range(1, 9)) if not broken else list(range(1, 31))
     else:
         shapes = [(2, 1), (2, 2), (3, 1), (3, 2), (3, 3), (4, 2), (4, 3), (5, 4), (6, 6)]
         seeds = list(range(1, 9))
@@ -566,9 +570,12 @@ def main(tier, replay=None):
         chk.notes.append('hook absent: cmdline/io.c of the working tree has no verif_io_event (harness/hooks/c13_io_hook.diff not applied); '
                          'trace validation skipped, only the differential part ran')
 
+    phase['trace_inclusion_s'] = round(time.time() - t1, 1)
+    t1 = time.time()
     # ---- (ii) differential
     dstats = differential(chk, tool, shim, arrays, DIFF_CACHES, tier)
 
+    phase['differential_s'] = round(time.time() - t1, 1)
     # ---- (iii) ThreadSanitizer, thorough only
     xstats = {}
     if tier == 'thorough':
@@ -589,6 +596,7 @@ def main(tier, replay=None):
                     'corpus_traces': len(corpus_lines),
                     'differential': dstats})
     chk.cov.update(xstats)
+    chk.cov['phase_wall'] = phase
     if chk.suppressed:
         chk.notes.append('further violations of the same kind not listed: %s' % dict(chk.suppressed))
     chk.cov['samples'] = [{'nd': a.nd, 'np': a.np, 'seed': a.seed, 'files': len(a.files)} for a in arrays]
